@@ -48,6 +48,8 @@ var c20Sources = []string{
 	"package pkg\n\nimport str \"strings\"\n\nvar B = str.Repeat(\"b\", 2)\n",
 	"package pkg\n\n// C has no imports.\nconst C = 3\n",
 	"package pkg\n\nimport (\n\t\"bytes\"\n\t\"io\"\n)\n\nfunc D(w io.Writer) { w.Write(bytes.NewBufferString(\"d\").Bytes()) }\n",
+	// raw string literals with multi-byte text over several lines, code behind the closing back quote
+	"package pkg\n\nimport \"strings\"\n\n// J – größer als ASCII.\nvar J = strings.TrimSpace(`\n日本語日本語日本語日本語日本語日本語\nÄÖÜ\n`) // hinter dem Rohtext\n\nconst K = `ääääääääääääääää\na\nb`\n\nfunc größe() string { return J + K /* © */ }\n",
 	// a raw string literal over several lines (its line breaks are part of the restored line table)
 	"package pkg\n\nconst H = `first\nsecond\n\tthird\n`\n\nfunc I() string { return H }\n",
 	// an import declaration without specs (legal, and gofmt leaves it alone)
